@@ -676,7 +676,42 @@ def case_narrow_sum(ctx, index, rng: random.Random):
     except Exception as ex:
         rec.monitor_error("C05.case_narrow_sum.make", ex)
         return
-    form = rng.choice(["a+b", "a+=b", "sum"])
+    form = rng.choice(["a+b", "a+=b", "sum", "a-b", "a-=b"]) if which == "errors2" else rng.choice(["a+b", "a+=b", "sum"])
+    if form in ("a-b", "a-=b"):
+        # the difference of equal-bin operands: contents b <= a everywhere, the squared errors *add* - and their sum is what outgrows the type
+        try:
+            b = (Histogram1D(ed, (fa // 2).astype(dt), errors2=ea.copy()) if d == 1 else Histogram2D(ed, (fa // 2).astype(dt), errors2=ea.copy()))
+        except Exception as ex:
+            rec.monitor_error("C05.case_narrow_sum.make", ex)
+            return
+        with attach.quiet():
+            s0 = snap.snapshot(a)
+        raised = None
+        try:
+            with warnings.catch_warnings():
+                warnings.simplefilter("ignore")
+                if form == "a-b":
+                    r = a - b
+                else:
+                    r = a
+                    r -= b
+        except Exception as ex:
+            raised = ex
+        with attach.quiet():
+            if raised is not None:
+                dd = snap.diff(s0, snap.snapshot(a), ignore=("dtype",))
+                if dd:
+                    rec.fail(monitor="C05.partition.equiv", op=form, symptom=f"a refused subtraction ({type(raised).__name__}) left the minuend half changed", diff=sorted(dd), detail={"dtype": dt, "dim": d})
+                else:
+                    rec.fail(monitor="C05.add.refusal", op=form, symptom=f"histograms with equal bins (b <= a in every bin) were refused: {type(raised).__name__}", diff=["raised"], detail={"dtype": dt, "error": str(raised)[:120]})
+            else:
+                e_ = np.asarray(r.errors2).ravel()
+                f_ = np.asarray(r.frequencies).ravel()
+                if int(e_[0]) != 2 * int(ea.ravel()[0]) or int(f_[0]) != int(fa.ravel()[0]) - int(fa.ravel()[0]) // 2:
+                    rec.fail(monitor="C05.partition.equiv", op=form, symptom="difference of compact integer operands: squared errors wrapped around instead of widening the content type", diff=["errors2"],
+                             detail={"dtype": dt, "after": str(r.dtype), "errors2": int(e_[0]), "expected": 2 * int(ea.ravel()[0])})
+        rec.case(["narrow_sum", dt, d, which, form], True, cls=f"narrow_sum/{dt}/{d}d/{which}/{form}/{'refused' if raised is not None else 'accepted'}")
+        return
     with attach.quiet():
         s0 = snap.snapshot(a)
     raised = None
